@@ -10,7 +10,7 @@
    is: [C04_refuted].  What holds is [C04_partial]: every crash point outside the two
    truncate->write windows.  The refuting crash is replayed on the real binary by the harness
    (VERIF_CRASH=update.truncated:n); see known_findings.json. *)
-From Receptor Require Import Model.Crash Proofs.Crash.
+From Receptor Require Import Model.Crash Proofs.Fs Proofs.Status Proofs.Crash.
 Open Scope N_scope.
 
 (* ---------- the model's files are the file system's ---------- *)
@@ -94,3 +94,36 @@ Theorem C04_runner_killed_never_completes :
   stdout_content (o_final_fs o) = [1; 2; 3].
 Proof. exact runner_killed_never_completes_thm. Qed.
 Print Assumptions C04_runner_killed_never_completes.
+
+(* ---------- what does hold ---------- *)
+
+(* C04_partial: for EVERY scenario (local command or remote work, any output, any exit status),
+   EVERY interleaving of the daemon's and the producer's operations, EVERY operation and step at
+   which the daemon dies EXCEPT between the truncation and the rewrite of a status record, and any
+   progress of a surviving runner while the node is down: a unit whose ID had been returned is
+   listed with its work type and binding; if it had finished it reports the same state and size
+   and its output is complete; if it is being produced it is followed to a finished state with the
+   full size and output; if it never started it is Failed; and one more crash/restart changes
+   nothing. *)
+Theorem C04_partial : forall sc cp,
+  wf_scenario sc = true -> cp_runner cp = false -> in_window sc cp = false -> holds sc cp = true.
+Proof. exact C04_partial_thm. Qed.
+Print Assumptions C04_partial.
+
+(* crash_recovery_idempotent: after the first restart of a unit at rest — with an intact record,
+   or with the record emptied in the window, whose first restart already is the loss — any
+   number of further kill/restart cycles answers the same *)
+Theorem C04_crash_recovery_idempotent : forall types x k,
+  uf_dir x = true -> (exists s, uf_status x = Some (encode s)) \/ uf_status x = Some [] ->
+  same_answer (snd (recover types (cycles types x (S k)))) (snd (recover types (cycles types x 1))).
+Proof. exact crash_recovery_idempotent_thm. Qed.
+Print Assumptions C04_crash_recovery_idempotent.
+
+(* the hypotheses of C04_partial are satisfiable by a non-trivial history: the finished unit of
+   the refutation, the same operation of the daemon, killed one step later (after the rewrite) *)
+Example C04_nonvacuous :
+  wf_scenario witness_sc = true /\ cp_runner witness_cp_after = false /\
+  in_window witness_sc witness_cp_after = false /\
+  o_acked (experiment witness_sc witness_cp_after) = true /\
+  v_status (o_restart (experiment witness_sc witness_cp_after)) = mkStatus S_SUCCEEDED 5 emit_t XNone.
+Proof. exact nonvacuous_thm. Qed.
